@@ -322,11 +322,22 @@ def _return_abstractarray():
     return AbstractArray
 
 
+def _unpickle_array_annotation(dtype, array_type, dim_str, dtypes):
+    out = dtype[array_type, dim_str]
+    if dtypes is not None and out.dtypes != dtypes:
+        # The original was created by nesting annotations, e.g.
+        # `Shaped[Float[Array, "c"], "b"]`, whose acceptable dtypes are narrower than
+        # those of its outer dtype.
+        out = type(out)(out.__name__, out.__bases__, dict(out.__dict__, dtypes=dtypes))
+    return out
+
+
 def _pickle_array_annotation(x: type["AbstractArray"]):
     if x is AbstractArray:
         return _return_abstractarray, ()
     else:
-        return x.dtype.__getitem__, ((x.array_type, x.dim_str),)
+        dtypes = None if x.dtypes is _any_dtype else x.dtypes
+        return _unpickle_array_annotation, (x.dtype, x.array_type, x.dim_str, dtypes)
 
 
 copyreg.pickle(_MetaAbstractArray, _pickle_array_annotation)
